@@ -46,6 +46,12 @@ def transcript(name):
         return {'banner': 'SSH-1.5-OpenSSH_1.2.3', 'proto': 1, 'ssh1': {'cmask': 0x48, 'amask': 0x0c, 'host_bits': 1024}}
     if name == 'T6':
         return {'banner': 'SSH-2.0-OpenSSH_9.3', 'kex': audit.sym_kex(['curve25519-sha256', 'kex-strict-c-v00@openssh.com'], ['ssh-ed25519'], enc, mac)}
+    if name == 'T9':
+        # a KEXINIT of about 7 kB (long private names): it does not fit into the tool's first read together with the banner
+        r9 = random.Random(99)
+        def ln(pre):
+            return [pre + '%d-' % i + ''.join(r9.choice('abcdefghij') for _ in range(150)) + '@example.com' for i in range(10)]
+        return {'banner': 'SSH-2.0-OpenSSH_9.3', 'kex': audit.sym_kex([SNTRUP] + ln('kx'), ['ssh-ed25519'] + ln('hk'), enc + ln('en'), mac + ln('mc')), 'hostkeys': {}, 'gex': None}
     if name == 'T8':
         # several host-key types AND a group exchange: a probe that fails for one key type is followed by further probe phases
         return {'banner': 'SSH-2.0-OpenSSH_9.3', 'kex': audit.sym_kex(['curve25519-sha256', GEX256], ['rsa-sha2-512', 'ssh-ed25519', 'ecdsa-sha2-nistp256'], enc, mac),
@@ -91,6 +97,12 @@ def cases(tier, seed):
     # the documented default timeout (5 s) when -t is not given: client audit and server audit against a peer that says nothing / stops after its banner
     for T, op, at in (('T6', 'stall_before', 'banner'), ('T6', 'stall_before', 'kexinit'), ('T1', 'stall_before', 'banner'), ('T1', 'stall_before', 'kexinit')):
         cs.append({'T': T, 'op': op, 'conn': 0, 'at': at, 'default_timeout': True})
+    # T9: the peer says everything it has to say (banner + a large KEXINIT) and then ends the connection - orderly or with a reset - before it has read anything the tool sent
+    for T in ('T9', 'T1'):
+        cs.append({'T': T, 'op': 'none'})
+        for op in ({'op': 'then_reset', 'pause': 0.0}, {'op': 'then_reset', 'pause': 0.02}, {'op': 'then_close'}):
+            cs.append(dict({'T': T, 'conn': 0, 'at': 'kexinit'}, **op))
+            cs.append(dict({'T': T, 'conn': 0, 'at': 'kexinit', 'eager': True}, **op))   # ... not even its identification string
     # T8: one of the three host-key probes (or a group-exchange probe) goes wrong, the others and the group-exchange phase follow
     cs.append({'T': 'T8', 'op': 'none'})
     for conn in (1, 2, 3):
@@ -284,12 +296,16 @@ def ssh1_verdict(tx):
 def build(c):
     s = transcript(c['T'])
     s['linger'] = 8
+    if c.get('eager'):
+        s['eager'] = True
     op = c['op']
     f = None
     if op in ('truncate',):
         f = {'op': 'truncate', 'offset': c['offset'], 'then': c['then']}
-    elif op in ('close_before', 'stall_before', 'dup'):
+    elif op in ('close_before', 'stall_before', 'dup', 'then_close'):
         f = {'op': op}
+    elif op == 'then_reset':
+        f = {'op': op, 'pause': c.get('pause', 0.0)}
     elif op == 'patch':
         f = {'op': 'patch', 'offset': c['offset'], 'hex': c['hex']}
     elif op == 'prefix':
